@@ -156,7 +156,26 @@ fn soup(g: &mut Gen, n: usize) -> String {
 const ALPHABET: &str = " \n\t\r;{}[]()<>@\\#'\"-,=.:*_/0123456789abcfiklnopstuABCXYZé中\u{1F600}\u{feff}\u{2028}\u{301}\0\u{7f}$^&|~`%!?+";
 
 pub fn gen_text(g: &mut Gen) -> (String, &'static str) {
-    match g.weighted(&[3, 5, 2, 2]) {
+    match g.weighted(&[3, 5, 2, 2, 2]) {
+        4 => { // name-type strings: escapes of varying length next to multi-byte characters, both platforms
+            const BITS: &[&str] = &["a", "Ren", " ", "\\", "\\00e9", "\\e9", "\\0", "\\00", "\\00e", "\\e", "é", "École", "中", "\u{1F600}", "caf", "\\00c9cole"];
+            let n = 1 + g.below(5);
+            let mut s = String::from("languagesystem DFLT dflt;\n");
+            let mut body = String::new();
+            for _ in 0..n {
+                let len = 1 + g.below(5);
+                let text: String = (0..len).map(|_| *g.pick(BITS)).collect();
+                let plat = match g.below(4) { 0 => "", 1 => "3 ", 2 => "1 ", _ => "3 1 0x409 " };
+                match g.below(4) {
+                    0 => { body.push_str(&format!("table name {{\n  nameid {} {plat}\"{text}\";\n}} name;\n", 9 + g.below(3))); }
+                    1 => { body.push_str(&format!("feature ss0{} {{\n  featureNames {{ name {plat}\"{text}\"; }};\n  sub a by b;\n}} ss0{};\n", 1 + n % 9, 1 + n % 9)); }
+                    2 => { body.push_str(&format!("feature size {{\n  parameters 10.0 3 80 139;\n  sizemenuname {plat}\"{text}\";\n}} size;\n")); }
+                    _ => { body.push_str(&format!("table STAT {{\n  ElidedFallbackName {{ name {plat}\"{text}\"; }};\n}} STAT;\n")); }
+                }
+            }
+            s.push_str(&body);
+            (s, "name-strings")
+        }
         0 => { // arbitrary unicode
             let n = g.below(200);
             let chars: Vec<char> = ALPHABET.chars().collect();
@@ -277,8 +296,34 @@ pub fn check_includes(ctx: &Ctx, genome: &[u16]) -> CaseReport {
     let mut g = Gen::new(genome);
     let mut rep = CaseReport::default();
     // exact: dag / missing-target with scope-valid content; robustness: cycle, self-loop, deep chain, mixed scopes / bad content
-    let shape = g.weighted(&[4, 2, 2, 2, 2, 2]);
-    let shape_name = ["dag", "missing-target", "cycle", "self-loop", "deep-chain", "mixed-scope-or-bad-content"][shape];
+    let shape = g.weighted(&[4, 2, 2, 2, 2, 2, 2]);
+    let shape_name = ["dag", "missing-target", "cycle", "self-loop", "deep-chain", "mixed-scope-or-bad-content", "deep-chain-shortcut-cycle"][shape];
+    if shape == 6 {
+        // f0 -> f1 -> ... -> fL -> X ; f0 also includes X directly ; X includes itself (or the root)
+        let l = 36 + g.below(24);
+        let x = l + 1;
+        let back_to_root = g.chance(1, 3);
+        let shortcut_first = g.chance(1, 2);
+        let mut texts: BTreeMap<String, String> = BTreeMap::new();
+        let name = |i: usize| format!("f{i}.fea");
+        for i in 0..=l {
+            let mut t = String::from("# chain\n");
+            if i == 0 && shortcut_first { t.push_str(&format!("include({});\n", name(x))); }
+            t.push_str(&format!("include({});\n", name(if i == l { x } else { i + 1 })));
+            if i == 0 && !shortcut_first { t.push_str(&format!("include({});\n", name(x))); }
+            texts.insert(name(i), t);
+        }
+        texts.insert(name(x), format!("languagesystem DFLT dflt;\ninclude({});\n", name(if back_to_root { 0 } else { x })));
+        let gm = glyph_map_for("", g.below(2));
+        let ntok = if ctx.dry { 0 } else { check_sources(&mut rep, &texts, "f0.fea", gm.as_ref(), None, true) };
+        rep.evals = 1;
+        rep.nontrivial = ntok >= 3;
+        rep.key = fnv_str(&format!("{texts:?}"));
+        rep.class(shape_name); rep.class("robustness-only"); rep.class(format!("chain-length={}", if l < 44 { "36-43" } else if l < 52 { "44-51" } else { "52-59" }));
+        rep.sample = Some(json!({"shape": shape_name, "chain_length": l, "shortcut_first": shortcut_first, "cycle_back_to_root": back_to_root}));
+        if !rep.failures.is_empty() || ctx.dry { for (k, v) in &texts { rep.artifacts.push((k.clone(), v.clone().into_bytes())); } }
+        return rep;
+    }
     let gm_mode = g.below(2);
     let nfiles = match shape { 4 => 45 + g.below(30), _ => 1 + g.below(6) };
     // roles: file 0 is root scope; in exact shapes each other file is either root-scope or block-scope
